@@ -6,12 +6,60 @@
    (slots that Write does not emit are not looked at).  No proofs in this file.
 
      writable e t x          x (an object of keep-aware code, of type t) passes the two checks everywhere
+     opt_defaults_ok o n     schema side of the domain: declared defaults of optional fields survive old -> new
      keep_accepts o n so sn v   the decidable hypothesis of the total keep theorems: the object the
                              old code holds after reading what the new code wrote for v is writable *)
 From Coq Require Import List ZArith Bool.
 From Verif Require Import Base.Bytes Wire.TType Wire.WVal Wire.Schema Wire.Value Wire.Std Wire.Unknown.
 Import ListNotations.
 Open Scope Z_scope.
+
+(* exact equality of values (entry order included) *)
+Fixpoint value_eqb (a b : value) {struct a} : bool :=
+  match a, b with
+  | VBool x, VBool y => Bool.eqb x y
+  | VInt x, VInt y | VDbl x, VDbl y => x =? y
+  | VStr x, VStr y | VBin x, VBin y => beqb x y
+  | VNil, VNil => true
+  | VSome x, VSome y => value_eqb x y
+  | VList la, VList lb =>
+      (fix go (la lb : list value) : bool :=
+         match la, lb with
+         | [], [] => true
+         | x :: ra, y :: rb => value_eqb x y && go ra rb
+         | _, _ => false end) la lb
+  | VStruct la, VStruct lb =>
+      (fix go (la lb : list (Z * value)) : bool :=
+         match la, lb with
+         | [], [] => true
+         | (i, x) :: ra, (j, y) :: rb => (i =? j) && value_eqb x y && go ra rb
+         | _, _ => false end) la lb
+  | VMap la, VMap lb =>
+      (fix go (la lb : list (value * value)) : bool :=
+         match la, lb with
+         | [], [] => true
+         | (k, x) :: ra, (k', y) :: rb => value_eqb k k' && value_eqb x y && go ra rb
+         | _, _ => false end) la lb
+  | _, _ => false
+  end.
+
+(* schema side of the keep theorems' domain.  A fresh NewX() object of the old code may hold an
+   optional field that already counts as set (an optional field with a container default: the slice /
+   map is not nil); the old code then writes that default although the new code never sent the field.
+   That is harmless exactly when the new code reads what the old code writes for the default back as
+   the default it would have put there itself; default_ok checks this by running the two models on the
+   declared default (fields whose fresh content is not "set" pass trivially: opt_init_unset). *)
+Definition default_ok (o n : env) (f : field) : bool :=
+  negb (is_optional f) || negb (isset f (init_slot f)) ||
+  match to_wk o (f_ty f) (init_slot f) with
+  | KOk w => match from_w n (f_ty f) w with
+             | Ok v => value_eqb v (init_slot f)
+             | Err _ => false end
+  | KErr _ => false
+  end.
+
+Definition opt_defaults_ok (o n : env) : bool :=
+  forallb (fun s => forallb (default_ok o n) (s_fields s)) (structs o).
 
 Fixpoint writable (e : env) (t : ty) (x : value) {struct x} : bool :=
   match x with
